@@ -15,7 +15,8 @@ structure AcctW (ac : Account) (a : Nat) : Prop where
   disj : ∀ p ∈ ac.pending.txs, ∀ q ∈ ac.queue.txs, p.nonce ≠ q.nonce
   pCaps : ∀ t ∈ ac.pending.txs, t.cost ≤ ac.pending.costcap ∧ t.gas ≤ ac.pending.gascap
   qCaps : ∀ t ∈ ac.queue.txs, t.cost ≤ ac.queue.costcap ∧ t.gas ≤ ac.queue.gascap
-  beat : ac.beat = 0 ↔ ac.pending.txs = []
+  /-- accounts with pending transactions have a heartbeat -/
+  beat : ac.pending.txs ≠ [] → ac.beat ≠ 0
 
 def AllW (s : State) : Prop := ∀ a, AcctW (s.acct a) a
 
@@ -54,7 +55,7 @@ theorem AcctW.congr {ac ac' : Account} {a : Nat} (h : AcctW ac a) (e1 : ac'.pend
 theorem AcctW.setPending {ac ac' : Account} {a : Nat} (h : AcctW ac a) (p' : TxList)
     (hsub : ∀ x ∈ p'.txs, x ∈ ac.pending.txs) (hs : Sorted p'.txs)
     (hc : ∀ x ∈ p'.txs, x.cost ≤ p'.costcap ∧ x.gas ≤ p'.gascap)
-    (e1 : ac'.pending = p') (e2 : ac'.queue = ac.queue) (e3 : ac'.beat = 0 ↔ p'.txs = []) : AcctW ac' a := by
+    (e1 : ac'.pending = p') (e2 : ac'.queue = ac.queue) (e3 : p'.txs ≠ [] → ac'.beat ≠ 0) : AcctW ac' a := by
   constructor <;> simp only [e1, e2]
   · exact fun t ht => h.pSender t (hsub t ht)
   · exact h.qSender
@@ -126,12 +127,7 @@ theorem AcctW.putPending {ac ac' : Account} {a : Nat} (h : AcctW ac a) (t : Tx) 
     · exact h.disj p hp q hq
   · exact put_caps _ _ h.pCaps
   · exact h.qCaps
-  · constructor
-    · intro h0; exact absurd h0 e3
-    · intro h0
-      have := self_mem_insertN t ac.pending.txs
-      simp only [TxList.put] at h0
-      rw [h0] at this; simp at this
+  · exact fun _ => e3
 
 /-! ### specifications of the list operations -/
 
